@@ -62,6 +62,11 @@ def bezier_outline_s(draw):
             segs.append(['Q', a, draw(ivert), b])
         else:
             segs.append(['C', a, draw(ivert), draw(ivert), b])
+    if draw(st.integers(0, 4)) == 0:
+        # a loop segment that starts and ends at one vertex (it encloses area although start == end)
+        i = draw(st.integers(0, len(segs)))
+        v = verts[i % n]
+        segs.insert(i, ['C', v, draw(ivert), draw(ivert), v])
     return [[s[0]] + [[float(p[0]), float(p[1])] for p in s[1:]] for s in segs]
 
 
